@@ -12,6 +12,7 @@ import copy
 import csv
 import io
 import os
+import random
 
 import numpy as np
 
@@ -87,11 +88,13 @@ EXPECTED_PROBES = {
             'waveform_route_two_spikes', 'waveform_route_spike_storing_other_channels',
             'waveform_route_unsorted_request'],
     'C08': ['multi_template_cluster', 'empty_id', 'undo', 'dirty_reload', 'highest_template_unused',
-            'single_spike_cluster', 'tie_in_spike_counts'],
+            'single_spike_cluster', 'tie_in_spike_counts', 'in_memory_curation',
+            'unwhitened_cluster_mean_checked'],
     'C09': ['empty_highest_id', 'curated', 'depths', 'zero_positive_part', 'batch_boundary_size'],
     'C10': ['torn_metadata', 'torn_store', 'foreign_malformed', 'repeated_save', 'dirty_reload',
             'store_checked', 'string_with_delimiter', 'none_dropped',
-            'legacy_csv_names_a_saved_field', 'foreign_first_row_without_cluster_id'],
+            'legacy_csv_names_a_saved_field', 'foreign_first_row_without_cluster_id',
+            'foreign_id_column_not_first'],
     'C03': ['torn_store', 'store_route', 'raw_fallback_route', 'non_stored_spike'],
     'C17': ['more_than_20_chunks', 'model_level_selection_checked'],
 }
@@ -145,7 +148,11 @@ def gen(rng, prop, tier):
         # half-precision amplitude files only where values are compared with the file (C04): sums
         # and means in half precision depend on the evaluation order far beyond any tolerance
         cfg['dtypes']['amps'] = 'float32'
+    xr = random.Random('side-%s-%d' % (prop, cfg['seed']))   # later additions draw from a side
+    #                                                            stream: older plans keep their shape
     if prop == 'C04':
+        if p['raw'] and xr.random() < 0.12:
+            cfg['dat_path_tuple'] = True       # dat_path = ('a.bin', 'b.bin') in params.py
         if cfg['names']['times'] == 'alf' and not p.get('samples_file') and rng.random() < 0.35:
             p['raw'] = False
             cfg['raw'] = None
@@ -254,6 +261,8 @@ def gen(rng, prop, tier):
                 # a template-feature store WITHOUT its column table, narrower or wider than the
                 # number of templates
                 cfg['tf_no_ind'] = rng.choice([max(2, nt - 2), nt, nt + 2])
+            if p['features'] and xr.random() < 0.15:
+                cfg['feat_no_ind'] = True     # a feature store WITHOUT its column table
             ops = [{'op': 'load'}]
             for _ in range(rng.randint(1, 8)):
                 r = rng.random()
@@ -266,6 +275,12 @@ def gen(rng, prop, tier):
                     if rng.random() < 0.12:
                         # an unknown channel id far beyond the probe (sparse lookup tables)
                         chans.insert(rng.randrange(len(chans) + 1), rng.choice([1000, 100000]))
+                    if cfg.get('feat_no_ind') and xr.random() < 0.5:
+                        # exactly the stored channels, in another order
+                        chans = list(range(cfg['nloc_f']))
+                        xr.shuffle(chans)
+                        if xr.random() < 0.3:
+                            chans = sorted(chans, reverse=True)
                     ops.append({'op': 'q_features', 'spikes': spikes, 'chans': chans})
                 elif r < 0.8:
                     ops.append({'op': 'q_tfeatures', 'seed': rng.randint(0, 10 ** 6),
@@ -388,6 +403,12 @@ def gen(rng, prop, tier):
             # the assignments live under their ALF name only
             cfg['names']['sclusters'] = 'alf'
             p['sclusters'] = True
+        far = None
+        if prop == 'C10' and nt <= 100 and xr.random() < 0.15:
+            # the sorter stored the assignments in 8 bits; curation later produces larger ids
+            cfg['dtypes']['sclusters'] = xr.choice(['uint8', 'int8'])
+            p['sclusters'] = True
+            far = xr.choice([200, 300])
         if cfg['raw'] and cfg['raw']['dtype'] in ('float32', 'float64') \
                 and rng.random() < 0.25:
             cfg['raw']['nonfinite'] = [[rng.random(), rng.randrange(64)]
@@ -419,6 +440,14 @@ def gen(rng, prop, tier):
             fields = ['group', 'quality', 'note', 'Amplitude', 'f%d' % rng.randint(0, 9),
                       rng.choice(['i', 'in', 'inf', 'o', 'c', 'n_spikes', 'id'])]
             n_foreign = 0
+            if far:
+                ops += [{'op': 'curate', 'ops': [{'k': 'merge', 'a': xr.randint(0, 20),
+                                                  'b': xr.randint(0, 20), 'frac': 0.5, 'seed': 1,
+                                                  'far': far},
+                                                 {'k': 'reassign', 'a': 0, 'b': 0, 'frac': 0.1,
+                                                  'seed': xr.randint(0, 10 ** 6), 'fresh': True,
+                                                  'far': far}]},
+                        {'op': 'close'}, {'op': 'reload'}]
             for _ in range(n_ops):
                 r = rng.random()
                 if r < 0.2:
@@ -467,6 +496,9 @@ def gen(rng, prop, tier):
                                 'name': fname, 'fields': fnames, 'rows': rows})
                     if kind in ('valid', 'valid_blank_first') and rng.random() < 0.25:
                         ops[-1]['swap_delim'] = True
+                    if kind == 'valid' and xr.random() < 0.3:
+                        # the id column is not the first one
+                        ops[-1]['id_col'] = xr.randint(1, len(fnames))
                 elif r < 0.68 and p['raw']:
                     ops.append({'op': 'save_subset', 'n': rng.choice([1, 3, 5, 50]),
                                 'factor': rng.choice([1.0, 2.5])})
@@ -1446,6 +1478,29 @@ class DatasetWorld(object):
         if empty:
             ctx.probe('empty_id')
         ctx.check(int(m.n_clusters) == nmax, 'n_clusters', lambda: {'got': int(m.n_clusters)})
+        nonempty = [c for c in range(nmax) if mm[c]]
+        if len(nonempty) >= 2:
+            # history: curation goes on in memory (one more merge that empties an id below the
+            # maximum) and the map is asked for again without a reload
+            a_, b_ = nonempty[0], nonempty[1]
+            sc2 = np.array(sc).copy()
+            sc2[sc2 == a_] = b_
+            old = m.spike_clusters
+            m.spike_clusters = sc2.astype(np.asarray(old).dtype)
+            try:
+                r2 = ctx.real('get_merge_map', m.get_merge_map, owners=('C08',))
+            finally:
+                m.spike_clusters = old
+            mm2 = R.merge_map(sc2)
+            ctx.probe('in_memory_curation')
+            ctx.check(sorted(int(k) for k in r2[0].keys()) == list(range(nmax))
+                      and all(sorted(int(x) for x in r2[0][c]) == mm2[c] for c in range(nmax)),
+                      'merge-map-after-in-memory-curation',
+                      lambda: {'merged': [int(a_), int(b_)]})
+            empty2 = [c for c in range(nmax) if not mm2[c]]
+            ctx.check(sorted(int(x) for x in np.asarray(r2[1]).ravel()) == empty2,
+                      'empty-ids-after-in-memory-curation',
+                      lambda: {'got': np.asarray(r2[1]).tolist(), 'expected': empty2})
         data = np.asarray(m.sparse_clusters.data)
         ctx.check(data.shape == (nmax, cfg['nsw'], cfg['nc']), 'cluster-waveforms-shape',
                   lambda: {'got': list(data.shape)})
@@ -1479,15 +1534,18 @@ class DatasetWorld(object):
                 continue
             tot = float(sum(counts.values()))
             scale = max(float(np.abs(T[tids]).max()), 1e-300)
+            # the weighted mean of the channel-restricted templates on every channel (it does not
+            # depend on which template is the dominant one; only the channel list does)
+            mean_all = np.zeros((cfg['nsw'], cfg['nc']))
+            for t in tids:
+                chs = sorted(lists[t])
+                mean_all[:, chs] += counts[t] * T[t][:, chs]
+            mean_all /= tot
             exps = {}
             for d0 in dom:   # a tie leaves the choice of the dominant template open
                 exp = np.zeros((cfg['nsw'], cfg['nc']))
-                for ch in lists[d0]:
-                    acc = np.zeros(cfg['nsw'])
-                    for t in tids:
-                        if ch in lists[t]:
-                            acc += counts[t] * T[t][:, ch]
-                    exp[:, ch] = acc / tot
+                chs = sorted(lists[d0])
+                exp[:, chs] = mean_all[:, chs]
                 exps[d0] = exp
             match = [d0 for d0 in dom if np.all(np.abs(data[c] - exps[d0]) <= 1e-6 * scale)]
             ctx.check(bool(match), 'merged-cluster-waveform-not-weighted-mean',
@@ -1507,13 +1565,46 @@ class DatasetWorld(object):
                 for d0 in match),
                 'cluster-mean-waveforms-inconsistent', lambda: {'cluster': c, 'channels': chl})
             # history: an unwhitened query in between must not change what the whitened one returns
-            ctx.real('get_cluster_mean_waveforms', m.get_cluster_mean_waveforms, c,
-                     owners=('C08',))
+            bu = ctx.real('get_cluster_mean_waveforms', m.get_cluster_mean_waveforms, c,
+                          owners=('C08',))
+            self._check_unwhitened_mean(c, tids, counts, dom, bu)
             b2 = ctx.real('get_cluster_mean_waveforms', m.get_cluster_mean_waveforms, c,
                           unwhiten=False, owners=('C08',))
             ctx.check(_aeq(b2.channel_ids, b.channel_ids)
                       and _aeq(b2.mean_waveforms, b.mean_waveforms),
                       'cluster-mean-waveforms-changed-by-earlier-query', lambda: {'cluster': c})
+
+    def _check_unwhitened_mean(self, c, tids, counts, dom, bu):
+        """The same statement read in the unwhitened space: on the channels of the dominant
+        template, the spike-count-weighted mean of the templates' channel-restricted (unwhitened)
+        waveforms. Decided only when every channel list involved is unambiguous."""
+        ctx, g, cfg, R = self.ctx, self.g, self.cfg, self.ref
+        if not np.all(np.isfinite(np.asarray(g.tmpl_data)[tids])):
+            ctx.skipped['unwhitened-mean-non-finite-template'] += 1
+            return
+        lists, U = {}, {}
+        for t in tids:
+            s_ = R.dense_channel_sets(t, unwhiten=True)
+            if s_ is None or s_[1]:
+                ctx.skipped['ambiguous-channel-list'] += 1
+                return
+            lists[t] = s_[0]
+            U[t] = R.template_full(t, True)
+        tot = float(sum(counts.values()))
+        scale = max(max(float(np.abs(U[t]).max()) for t in tids), 1e-300)
+        chl = [int(x) for x in bu.channel_ids]
+        got = np.asarray(bu.mean_waveforms, dtype=np.float64)
+        mean_all = np.zeros((cfg['nsw'], cfg['nc']))
+        for t in tids:
+            chs = sorted(lists[t])
+            mean_all[:, chs] += counts[t] * U[t][:, chs]
+        mean_all /= tot
+        ok = False
+        if got.shape == (cfg['nsw'], len(chl)) and any(set(chl) == lists[d0] for d0 in dom):
+            ok = bool(np.all(np.abs(got - mean_all[:, chl]) <= 1e-5 * scale))
+        ctx.probe('unwhitened_cluster_mean_checked')
+        ctx.check(ok, 'unwhitened-cluster-mean-not-weighted-mean',
+                  lambda: {'cluster': c, 'templates': tids, 'channels': chl})
 
     # ---------------------------------------------------------------------------------- C09
     def q_summaries(self, op):
@@ -1650,7 +1741,11 @@ class DatasetWorld(object):
         if kind in ('valid', 'valid_blank_first', 'collide_csv', 'cluster_info', 'header_only',
                     'ragged', 'no_cluster_id'):
             head = (['cluster_id'] if kind != 'no_cluster_id' else ['id']) + fields
-            wr.writerow(head)
+            idc = op.get('id_col', 0)
+            if idc:
+                ctx.probe('foreign_id_column_not_first')
+            place = lambda cells: cells[1:1 + idc] + cells[:1] + cells[1 + idc:]  # noqa
+            wr.writerow(place(head))
             if kind == 'valid_blank_first':
                 # a first data row without cluster id (or a blank line): skipped, the rest counts
                 if len(fields) > 1:
@@ -1663,7 +1758,7 @@ class DatasetWorld(object):
                     cells = [row['cluster_id']] + [row.get(f, '') for f in fields]
                     if kind == 'ragged':
                         cells = cells[:1 + (i % (len(fields) + 1))] if i % 2 else cells + ['extra']
-                    wr.writerow(cells)
+                    wr.writerow(place(cells) if idc else cells)
             path.write_text(buf.getvalue(), encoding='utf-8')
         elif kind == 'empty':
             path.write_bytes(b'')
